@@ -3077,3 +3077,7 @@ mod tests {
         assert_eq!(clone.peek(&2), Some(&3));
     }
 }
+
+#[cfg(feature = "verif-hooks")]
+#[path = "/verif/kani/hooks_raw.rs"]
+mod verif_hooks;
